@@ -9,6 +9,7 @@ import Solvor.Net.Theorems
 #print axioms Solvor.Net.prCheck_iff
 #print axioms Solvor.Net.pagerank_step_nonneg
 #print axioms Solvor.Net.pagerank_step_sum_one
+#print axioms Solvor.Net.pagerank_output_nonneg_sum_one
 #print axioms Solvor.Net.pagerank_contraction
 #print axioms Solvor.Net.pagerank_residual_bound
 #print axioms Solvor.Net.isPartition_iff
